@@ -55,7 +55,17 @@ func main() {
 	maxFan := flag.Int("maxfan", 64, "concretization fan-out cap")
 	trace := flag.Bool("trace", false, "trace calls (debug)")
 	flag.IntVar(&QueryTimeoutMs, "qtimeout", 10000, "per-query solver timeout ms")
+	selftest := flag.Bool("selftest", false, "run engine self checks and exit")
 	flag.Parse()
+	if *selftest {
+		initUnicodeTables()
+		if err := selfCheckUnicode(); err != nil {
+			fmt.Fprintln(os.Stderr, err)
+			os.Exit(1)
+		}
+		fmt.Println("selftest ok")
+		return
+	}
 
 	t0 := time.Now()
 	cfg := &packages.Config{Mode: packages.LoadAllSyntax, Dir: *dir, BuildFlags: []string{"-tags=verif"},
